@@ -96,6 +96,8 @@ pub struct EngineCfg {
     pub strict: bool,
     pub populate: bool,
     pub handle_cache: bool,
+    /// obtain bucket handles from the `buckets()` iterators instead of `get_bucket`
+    pub via_iter: bool,
     pub verify_commit: bool,
     pub fsck_commit: bool,
     pub db_check: bool,
@@ -123,6 +125,7 @@ impl EngineCfg {
             strict: false,
             populate: false,
             handle_cache: false,
+            via_iter: false,
             verify_commit: true,
             fsck_commit: true,
             db_check: false,
@@ -1128,9 +1131,21 @@ impl<'a> Engine<'a> {
         if self.cfg.handle_cache && cache.contains_key(path) {
             return Ok(None);
         }
-        let mut cur: Bucket<'b, 'tx> = tx.get_bucket(path[0].clone())?;
+        // every route that hands out a bucket handle must hand out the same kind of handle:
+        // by name, or from the iterator over sub-buckets (falling back to the by-name call
+        // for the error when the iterator does not list it)
+        let via_iter = self.cfg.via_iter;
+        let first = if via_iter { tx.buckets().take(ITER_CAP).find(|(n, _)| n.name() == path[0].as_slice()).map(|(_, b)| b) } else { None };
+        let mut cur: Bucket<'b, 'tx> = match first {
+            Some(b) => b,
+            None => tx.get_bucket(path[0].clone())?,
+        };
         for name in &path[1..] {
-            let next = cur.get_bucket(name.clone())?;
+            let found = if via_iter { cur.buckets().take(ITER_CAP).find(|(n, _)| n.name() == name.as_slice()).map(|(_, b)| b) } else { None };
+            let next = match found {
+                Some(b) => b,
+                None => cur.get_bucket(name.clone())?,
+            };
             cur = next;
         }
         if self.cfg.handle_cache {
